@@ -378,75 +378,6 @@ fn no_headers() -> RangeDeserializerBuilder<'static, &'static str> {
     b
 }
 
-#[kani::proof]
-#[kani::unwind(8)]
-#[kani::stub(alloc::fmt::format, format_stub)]
-fn probe_rows_3x2() {
-    let start = any_origin();
-    let v: [[i64; 2]; 3] = kani::any();
-    let cells = [
-        [Data::Int(v[0][0]), Data::Int(v[0][1])],
-        [Data::Int(v[1][0]), Data::Int(v[1][1])],
-        [Data::Int(v[2][0]), Data::Int(v[2][1])],
-    ];
-    let range = build_range(start, &cells);
-    let b = no_headers();
-    let Ok(mut it) = b.from_range::<Data, (i64, i64)>(&range) else {
-        assert!(false);
-        return;
-    };
-    let mut n = 0;
-    while n < 3 {
-        match it.next() {
-            Some(Ok((a, b))) => assert!(a == v[n][0] && b == v[n][1]),
-            _ => assert!(false),
-        }
-        n += 1;
-    }
-    assert!(it.next().is_none());
-}
-
-fn ints3x2(v: &[[i64; 2]; 3]) -> Vec<Data> {
-    vec![
-        Data::Int(v[0][0]), Data::Int(v[0][1]),
-        Data::Int(v[1][0]), Data::Int(v[1][1]),
-        Data::Int(v[2][0]), Data::Int(v[2][1]),
-    ]
-}
-fn probe_iter(range: &Range<Data>, v: &[[i64; 2]; 3]) {
-    let b = no_headers();
-    let Ok(mut it) = b.from_range::<Data, (i64, i64)>(range) else {
-        assert!(false);
-        return;
-    };
-    let mut n = 0;
-    while n < 3 {
-        match it.next() {
-            Some(Ok((a, b))) => assert!(a == v[n][0] && b == v[n][1]),
-            _ => assert!(false),
-        }
-        n += 1;
-    }
-    assert!(it.next().is_none());
-}
-#[kani::proof]
-#[kani::unwind(8)]
-#[kani::stub(alloc::fmt::format, format_stub)]
-fn probe_a() {
-    let v: [[i64; 2]; 3] = kani::any();
-    let range = Range { start: (3, 2), end: (5, 3), inner: ints3x2(&v) };
-    probe_iter(&range, &v);
-}
-#[kani::proof]
-#[kani::unwind(8)]
-#[kani::stub(alloc::fmt::format, format_stub)]
-fn probe_b() {
-    let v: [[i64; 2]; 3] = kani::any();
-    let start = any_origin();
-    let range = Range { start, end: (start.0 + 2, start.1 + 1), inner: ints3x2(&v) };
-    probe_iter(&range, &v);
-}
-
 /// a record that pulls up to 3 elements of type E from the row and remembers how many there were
 struct Row3<E> {
     n: u8,
@@ -475,84 +406,65 @@ impl<'de, E: Deserialize<'de>> Deserialize<'de> for Row3<E> {
         d.deserialize_seq(V(PhantomData))
     }
 }
-#[kani::proof]
-#[kani::unwind(8)]
-#[kani::stub(alloc::fmt::format, format_stub)]
-fn probe_c() {
-    let v: [[i64; 2]; 3] = kani::any();
-    let range = Range { start: (3, 2), end: (5, 3), inner: ints3x2(&v) };
-    let b = no_headers();
-    let Ok(mut it) = b.from_range::<Data, Row3<i64>>(&range) else {
-        assert!(false);
-        return;
-    };
-    let mut n = 0;
-    while n < 3 {
-        match it.next() {
-            Some(Ok(r)) => assert!(r.n == 2 && r.e[0] == Some(v[n][0]) && r.e[1] == Some(v[n][1])),
-            _ => assert!(false),
-        }
-        n += 1;
-    }
-    assert!(it.next().is_none());
-}
-
 /// element type for records: whatever the cell says about itself through `deserialize_any`
 impl<'de> Deserialize<'de> for Got {
     fn deserialize<D: Deserializer<'de>>(d: D) -> Result<Self, D::Error> {
         d.deserialize_any(Leaf)
     }
 }
-#[kani::proof]
-#[kani::unwind(8)]
-#[kani::stub(alloc::fmt::format, format_stub)]
-fn probe_d() {
-    let v: [[i64; 2]; 3] = kani::any();
-    let start = any_origin();
-    let range = Range { start, end: (start.0 + 2, start.1 + 1), inner: ints3x2(&v) };
-    let b = no_headers();
-    let Ok(mut it) = b.from_range::<Data, Row3<Got>>(&range) else {
-        assert!(false);
-        return;
-    };
-    let mut n = 0;
-    while n < 3 {
-        match it.next() {
-            Some(Ok(r)) => assert!(r.n == 2 && r.e[0] == Some(Got::I64(v[n][0])) && r.e[1] == Some(Got::I64(v[n][1]))),
-            _ => assert!(false),
-        }
-        n += 1;
-    }
-    assert!(it.next().is_none());
-}
 
+
+
+fn to_string_stub<T: fmt::Display + ?Sized>(_v: &T) -> String { String::new() }
 #[kani::proof]
 #[kani::unwind(8)]
 #[kani::stub(alloc::fmt::format, format_stub)]
-fn probe_e() {
-    let v: [[i64; 2]; 3] = kani::any();
-    let start = (3, 2);
-    let range = Range { start, end: (start.0 + 2, start.1 + 1), inner: ints3x2(&v) };
+fn probe_y1() {
+    let v: [i64; 2] = kani::any();
+    let range = Range { start: (3, 2), end: (3, 3), inner: vec![Data::Int(v[0]), Data::Int(v[1])] };
     let b = no_headers();
-    let Ok(mut it) = b.from_range::<Data, Row3<Got>>(&range) else {
+    let Ok(mut it) = b.from_range::<Data, Row3<i64>>(&range) else {
         assert!(false);
         return;
     };
-    let mut n = 0;
-    while n < 3 {
-        match it.next() {
-            Some(Ok(r)) => assert!(r.n == 2 && r.e[0] == Some(Got::I64(v[n][0])) && r.e[1] == Some(Got::I64(v[n][1]))),
-            _ => assert!(false),
-        }
-        n += 1;
+    match it.next() {
+        Some(Ok(r)) => assert!(r.n == 2 && r.e[0] == Some(v[0]) && r.e[1] == Some(v[1])),
+        _ => assert!(false),
     }
-    assert!(it.next().is_none());
 }
 #[kani::proof]
-fn probe_w() {
-    let start = any_origin();
-    let range: Range<Data> = Range { start, end: (start.0 + 2, start.1 + 1), inner: Vec::new() };
-    let w = (range.end.1 - range.start.1 + 1) as usize;
-    let v: Vec<usize> = (0..w).collect();
-    assert!(v.len() == 2);
+#[kani::unwind(8)]
+#[kani::stub(alloc::fmt::format, format_stub)]
+fn probe_y2() {
+    let v: [i64; 2] = kani::any();
+    let range = Range { start: (3, 2), end: (3, 3), inner: vec![Data::Int(v[0]), Data::Int(v[1])] };
+    let mut rows = range.rows();
+    let idx: Vec<usize> = (0..range.width()).collect();
+    let Some(row) = rows.next() else { assert!(false); return; };
+    let pos: (u32, u32) = kani::any();
+    let de = RowDeserializer::new(&idx, None, row, pos);
+    match Row3::<i64>::deserialize(de) {
+        Ok(r) => assert!(r.n == 2 && r.e[0] == Some(v[0]) && r.e[1] == Some(v[1])),
+        _ => assert!(false),
+    }
+}
+#[kani::proof]
+#[kani::unwind(8)]
+#[kani::stub(alloc::fmt::format, format_stub)]
+fn probe_y3() {
+    let v: [i64; 4] = kani::any();
+    let range = Range { start: (3, 2), end: (4, 3), inner: vec![Data::Int(v[0]), Data::Int(v[1]), Data::Int(v[2]), Data::Int(v[3])] };
+    let b = no_headers();
+    let Ok(mut it) = b.from_range::<Data, Row3<i64>>(&range) else {
+        assert!(false);
+        return;
+    };
+    match it.next() {
+        Some(Ok(r)) => assert!(r.n == 2 && r.e[0] == Some(v[0]) && r.e[1] == Some(v[1])),
+        _ => assert!(false),
+    }
+    match it.next() {
+        Some(Ok(r)) => assert!(r.n == 2 && r.e[0] == Some(v[2]) && r.e[1] == Some(v[3])),
+        _ => assert!(false),
+    }
 }
